@@ -45,6 +45,9 @@ CONSTANTS
   EditOps,       \* subset of {"flip","drop","swap","replay","reflect","inject","trunc","eof"}
   \* ---- bug switches (all FALSE in the real configs) ---------------------------------
   Weak_ChallengeNotBound,      \* the signed challenge does not depend on the transcript (a constant)
+  Weak_ChallengeDHOnly,        \* the challenge depends on the DH secret only, not on the two ephemeral keys
+                               \*   (harmless alone; with Weak_AcceptLowOrder it is the pre-transcript attack:
+                               \*   M forces the same zero secret on both sides and relays the signatures)
   Weak_AcceptLowOrder,         \* computeDHSecret does not reject the all-zero shared secret
   Weak_NonceNotIncremented,    \* Write does not call incrNonce(sendNonce)
   Weak_RecvNonceNotIncremented,\* Read does not call incrNonce(recvNonce)
@@ -75,7 +78,9 @@ NoChal    == [lo |-> "", hi |-> "", dh |-> {}]
 ConstChal == [lo |-> "-", hi |-> "-", dh |-> {"const"}]
 OldChal   == [lo |-> "eM", hi |-> "eOld", dh |-> {"eM", "eOld"}]   \* an earlier session in which M was the legitimate peer
 \* challenge := transcript.ExtractBytes(labelSecretConnectionMac)
-Chal(tr) == IF Weak_ChallengeNotBound THEN ConstChal ELSE tr
+Chal(tr) == IF Weak_ChallengeNotBound THEN ConstChal
+            ELSE IF Weak_ChallengeDHOnly THEN [lo |-> "-", hi |-> "-", dh |-> tr.dh]
+            ELSE tr
 
 Key(dh, half) == [dh |-> dh, half |-> half]
 MKey == [dh |-> {"mkey"}, half |-> 0]         \* a key only M holds (injected frames)
